@@ -1,8 +1,29 @@
 import WhVerif.Driver.Echo
+import WhVerif.Driver.C01
+import WhVerif.Driver.C02
+import WhVerif.Driver.C03
+import WhVerif.Driver.C04
+import WhVerif.Driver.C05
+import WhVerif.Driver.C06
+import WhVerif.Driver.C07
+import WhVerif.Driver.C08
+import WhVerif.Driver.C09
+import WhVerif.Driver.C10
+import WhVerif.Driver.C11
+import WhVerif.Driver.C12
+import WhVerif.Driver.C13
+import WhVerif.Driver.C14
+import WhVerif.Driver.C15
+import WhVerif.Driver.C16
+import WhVerif.Driver.C17
+import WhVerif.Driver.C18
+import WhVerif.Driver.C19
+import WhVerif.Driver.C20
 namespace WhVerif.Driver
 open Lean
 /-- handlers tried in order; the first that recognises the op answers -/
-def handlers : List (String → Json → Option Json) := [Echo.handle]
+def handlers : List (String → Json → Option Json) :=
+  [Echo.handle, C01.handle, C02.handle, C03.handle, C04.handle, C05.handle, C06.handle, C07.handle, C08.handle, C09.handle, C10.handle, C11.handle, C12.handle, C13.handle, C14.handle, C15.handle, C16.handle, C17.handle, C18.handle, C19.handle, C20.handle]
 def dispatch (line : String) : String :=
   match Json.parse line with
   | .error _ => "{\"error\":\"bad-json\"}"
